@@ -12,7 +12,7 @@ import faulthandler
 import multiprocessing
 from concurrent.futures import ProcessPoolExecutor, wait, FIRST_COMPLETED
 
-from . import core, fsseam
+from . import core, fsseam, zygote
 
 PROPS = {
     'C02': 'rbqlsim.props.c02',
@@ -41,11 +41,41 @@ def _blank_summary():
     }
 
 
+def in_process(mod):
+    return bool(getattr(mod, 'IN_PROCESS', False))
+
+
 def run_one(mod, pid, seed, idx, tier):
     rng = run_rng(pid, seed, idx)
     scenario = mod.generate(rng, tier, idx)
-    result = mod.execute(scenario)
+    every = getattr(mod, 'COLD_START_EVERY', 0)
+    if in_process(mod) and every and idx % every == every - 1 and zygote.available():
+        # executed in an interpreter in which no query has run yet (what a freshly started program sees)
+        result = zygote.call(pid, scenario)
+        result['cold_start'] = True
+        core.bump(result.setdefault('counters', {}), 'sched.executed_in_pristine_interpreter')
+    else:
+        result = mod.execute(scenario)
     return scenario, result
+
+
+def confirm_violation(mod, pid, case, result):
+    """A violation is kept only if it is a function of its scenario: it must show again, with the same oracle, in an
+    interpreter (and Node driver) that has executed nothing else."""
+    if in_process(mod) and zygote.available():
+        if result.get('cold_start'):
+            return True
+        again = zygote.call(pid, case)
+        return again['verdict'] == 'violation' and again['oracle'] == result['oracle']
+    if hasattr(mod, 'confirm'):
+        return mod.confirm(case, result)
+    return True
+
+
+def pristine_execute(mod, pid, scenario):
+    if in_process(mod) and zygote.available():
+        return zygote.call(pid, scenario)
+    return mod.execute(scenario)
 
 
 def run_chunk(args):
@@ -56,6 +86,8 @@ def run_chunk(args):
         fsseam.new_process_scratch()
         mod = prop_module(pid)
         core.load_tree()
+        if in_process(mod):
+            zygote.start()      # before this worker executes anything
         if hasattr(mod, 'worker_init'):
             mod.worker_init()
     except BaseException:
@@ -82,14 +114,15 @@ def run_chunk(args):
             out['keys'][k] = result['nontrivial']
         if want_digests:
             out['digests'].append((idx, result.get('digest')))
-        if result['verdict'] == 'violation' and hasattr(mod, 'confirm'):
+        if result['verdict'] == 'violation':
             try:
-                ok = mod.confirm(result.get('case', scenario), result)
+                ok = confirm_violation(mod, pid, result.get('case', scenario), result)
             except BaseException:
                 out['harness_errors'].append({'idx': idx, 'trace': traceback.format_exc()})
                 continue
             if not ok:
-                core.bump(out['counters'], 'discard.violation_not_reproducible_in_fresh_driver')
+                # seen only with whatever this worker (or its Node driver) had executed before: not a function of the scenario
+                core.bump(out['counters'], 'discard.violation_not_reproducible_from_a_pristine_start')
                 out['discards'] += 1
                 continue
         if result['verdict'] == 'violation' and len(out['violations']) < 4:
@@ -117,7 +150,7 @@ def tree_revision():
         return 'unknown'
 
 
-def shrink(mod, scenario, oracle, budget_execs=400, budget_s=25.0):
+def shrink(mod, scenario, oracle, budget_execs=400, budget_s=25.0, pid=None):
     """Greedy: keep a candidate iff executing it still yields a violation of the same oracle."""
     t0 = time.time()
     execs = 0
@@ -134,12 +167,11 @@ def shrink(mod, scenario, oracle, budget_execs=400, budget_s=25.0):
             except BaseException:
                 continue
             if r['verdict'] == 'violation' and r['oracle'] == oracle:
-                if hasattr(mod, 'confirm'):
-                    try:
-                        if not mod.confirm(r.get('case', cand), r):
-                            continue
-                    except BaseException:
+                try:
+                    if not confirm_violation(mod, pid, r.get('case', cand), r):
                         continue
+                except BaseException:
+                    continue
                 cur = r.get('case', cand)
                 improved = True
                 break
@@ -198,6 +230,9 @@ def run_batch(pid, tier, seed, runs=None, workers=None, deadline_s=None, want_di
     mod = prop_module(pid)
     core.load_tree()   # import once in the parent; forked workers inherit the modules
     fsseam.ensure_root()
+    if in_process(mod):
+        fsseam.new_process_scratch()
+        zygote.start()   # the parent executes scenarios only while shrinking; its pristine copy is put aside now
     cfg = dict(mod.TIERS[tier])
     if runs is not None:
         cfg['runs'] = runs
@@ -276,10 +311,10 @@ def run_batch(pid, tier, seed, runs=None, workers=None, deadline_s=None, want_di
         if sig in seen_sigs:
             continue
         seen_sigs.add(sig)
-        small, execs = shrink(mod, v['scenario'], v['oracle'])
-        r = mod.execute(small)
+        small, execs = shrink(mod, v['scenario'], v['oracle'], pid=pid)
+        r = pristine_execute(mod, pid, small)
         if r['verdict'] != 'violation':
-            small, r = v['scenario'], mod.execute(v['scenario'])
+            small, r = v['scenario'], pristine_execute(mod, pid, v['scenario'])
         if r['verdict'] != 'violation':
             print('HARNESS-ERROR property=%s violation at run %d did not re-execute (nondeterminism in the harness)' % (pid, v['idx']))
             return 2, merged
